@@ -327,13 +327,13 @@ func programs(tier string) []Program {
 		}
 	}
 	if tier == "thorough" {
-		// three threads, at most 5 ops in total
+		// three threads, at most 4 ops in total (1+1+1 and 1+1+2)
 		for _, m := range []int{0, 1, 2} {
 			for _, s := range streams {
 				for i := 0; i < len(tp); i++ {
 					for j := i; j < len(tp); j++ {
 						for k := j; k < len(tp); k++ {
-							if len(tp[i])+len(tp[j])+len(tp[k]) > 5 {
+							if len(tp[i])+len(tp[j])+len(tp[k]) > 4 {
 								continue
 							}
 							out = append(out, Program{Threads: [][]int{tp[i], tp[j], tp[k]}, MaxInFlight: m, Stream: s})
@@ -399,7 +399,11 @@ func runJob(j Job) []ProgResult {
 			NewHarness: func() explore.Harness { return newHarness(p) }}
 		r := e.Explore()
 		if r.Capped {
-			e = &explore.Explorer{Bound: j.Bound, MaxExec: 0, Horizon: 5000,
+			b := j.Bound
+			if len(p.Threads) > 2 && b > 2 {
+				b = 2
+			}
+			e = &explore.Explorer{Bound: b, MaxExec: 0, Horizon: 5000,
 				NewHarness: func() explore.Harness { return newHarness(p) }}
 			r2 := e.Explore()
 			r2.Findings = append(r2.Findings, r.Findings...)
@@ -511,7 +515,7 @@ func check(prop, tier, raceBin string) int {
 	maxExec := int64(400)
 	if tier == "thorough" {
 		bound = 3
-		maxExec = 100_000
+		maxExec = 20_000
 	}
 	var jobs []interface{}
 	chunk := (len(progs) + 127) / 128
